@@ -4,7 +4,7 @@ from props.sm_common import SMStandard, build_case, configs_for, yn_modes, mixed
 
 META = dict(
     text="Same Coq model of the security managers as C32 (tool box and bond data base are Section variables). Specification monitor: find_key(ediv, rand) answers exactly the key the last completed pairing on this connection produced (legacy s1(TK, srand, mrand), LESC LTK of f5 - recomputed by the monitor from the observed exchange) if a pairing is completed and ediv = rand = 0, otherwise what the user's bond data base holds for (ediv, rand, peer) - the monitor keeps a copy of the data base and adds the observed store_bond callbacks - otherwise nothing. Proved for every tool box, bond data base, configuration and every operation sequence of any length: the monitor accepts the model's trace (C33_keys_only_after_pairing_or_from_bond_db; full statement, no exception). Model tied to the real classes by differential runs; the monitor judges the implementation's traces.",
-    level_note="Trusted: Coq kernel, extraction, OCaml driver, C++ harness + ASan/UBSan, runner, Python peer. Model hand-written, tied on the compiled configurations; the bond data base of the runs is a small concrete one (list of address, key, rand, ediv). The key a completed exchange produced is defined by the monitor from the observed PDUs and user interaction; the LESC DH key is defined through the DH function on public keys (hypothesis dh_ok: p256 of the tool box's own key pairs agrees with it).",
+    level_note="Trusted: Coq kernel, extraction, OCaml driver, C++ harness + ASan/UBSan, runner, Python peer. Model hand-written, tied on the compiled configurations; the bond data base of the runs is a small concrete one (list of address, key, rand, ediv). The key a completed exchange produced is defined by the monitor from the observed PDUs and user interaction; the LESC DH key is defined through the DH function on public keys (hypothesis dh_ok: p256 of the tool box's own key pairs agrees with it). Also proved without the monitor (SM/SMDirect.v): in every reachable live state the answer to a key request is the pairing's LTK only in state Completed with EDIV = Rand = 0 and otherwise the bond data base's answer; directly after a Pairing Failed response or a new connection only the bond data base answers.",
     design_ref="DESIGN.md section 6 C33, docs/C33.md, docs/SM_MODEL.md",
     technique="Coq state-machine model + simulation invariant + executable monitor; extracted model vs C++ differential correspondence with a lock-step pairing peer")
 
